@@ -309,9 +309,16 @@ def execute_spec(prop_mod, spec):
 # parallel runner: lanes fork one child per task
 # --------------------------------------------------------------------------
 def _lane(prop_mod, specs, out_path, wall):
+    timeouts = 0
     with open(out_path, "w") as f:
         for spec in specs:
-            res = fork_execute(prop_mod, spec, wall)
+            if timeouts >= 2:
+                # a hanging library (e.g. a mutant that loops forever) must not keep the check busy for hours
+                res = {"harness_error": "skipped: two earlier runs of this lane exceeded the wall limit"}
+            else:
+                res = fork_execute(prop_mod, spec, wall)
+                if "exceeded wall limit" in res.get("harness_error", ""):
+                    timeouts += 1
             res["_i"] = spec["_i"]
             f.write(json.dumps(res) + "\n")
             f.flush()
